@@ -287,6 +287,8 @@ class PythonWasmFunc:
             return self._f(*args)
         except ZeroDivisionError as ex:
             raise WasmTrapException("integer divide by zero") from ex
+        except OverflowError as ex:
+            raise WasmTrapException("integer overflow") from ex
 
     def _get_ptr(self):
         return self._instance._py_module.rt.f_ptrs_by_name[self._name]
